@@ -3,16 +3,16 @@ CONSTANTS
  Mode = "sage"
  D = 2
  NInner = 1
- Kind = "welford"
+ Kind = "es"
  Alpha <- A_1_2
- StoreKind = "geometric"
+ StoreKind = "interval"
  Cap = 2
- Strategy = "product"
- NOver = 0
- ModelKind = "multi"
+ Strategy = "joint"
+ NOver = 2
+ ModelKind = "scalar"
  CommitEarly = FALSE
  MaxCalls = 3
- MaxFaults = 1
+ MaxFaults = 0
  AllowNoUpd = FALSE
 INVARIANT Emit
 CHECK_DEADLOCK FALSE
